@@ -909,3 +909,209 @@ Proof.
   - apply in_map_iff in Hin. destruct Hin as (p & <- & Hp). exists pd. split; [left; reflexivity|exact Hp].
   - destruct (IH _ _ Hin) as (pd' & H1 & H2). exists pd'. split; [right; exact H1|exact H2].
 Qed.
+Theorem writer_output_cov_decode_lemma : forall cfg l, wlib_ok l -> wlib_small l ->
+  cov_oas_decode (write_oas_model cfg l) = Some (view_w cfg l).
+Proof.
+  intros cfg l (Hlp & Hnd & Hcells & Hsize) (Hsmall & Hcnt). specialize (Hsize cfg). specialize (Hcnt cfg).
+  unfold view_w, cell_offsets. unfold write_oas_model in *. unfold write_oas_run in *.
+  set (names := map cl_name (li_cells l)) in *.
+  set (start := start_header ++ enc_real (li_unit l) ++ [1]) in *.
+  (* the three stateful passes *)
+  destruct (properties_to_oas_res (li_props l) pstate0 [] NR_names0) as (K1 & X1 & R1).
+  pose proof (properties_to_oas_enc (li_props l) pstate0) as Enc1.
+  destruct (properties_to_oas pstate0 (li_props l)) as [[r_lp d_lp] st1] eqn:E1. cbn [fst snd] in X1, R1, Enc1.
+  set (pos1 := N.of_nat (length start) + reclen r_lp) in *.
+  destruct (cells_to_oas_res names (li_cells l) [] pos1 names0 [] st1 K1 eq_refl Hnd NR_names0 (proj1 X1))
+    as (T2 & K2 & HT2 & _ & X2 & R2).
+  pose proof (cells_offsets_bound names (li_cells l) pos1 names0 st1) as Hoffs.
+  destruct (cells_to_oas names pos1 names0 st1 (li_cells l)) as [[[[r_c d_c] offs] ts] st2] eqn:E2.
+  cbn [fst snd] in HT2, X2, R2, Hoffs.
+  destruct (cellnames_to_oas_res cfg names offs (li_cells l) st2 K2 (proj1 X2)) as (K3 & X3 & R3).
+  pose proof (cellnames_records_bound cfg names offs (li_cells l) st2) as Hcnb.
+  destruct (cellnames_to_oas cfg names offs st2 (li_cells l)) as [[r_cn d_cn] st3] eqn:E3.
+  cbn [fst snd] in X3, R3, Hcnb.
+  cbn [run_failed run_start run_records run_end run_offsets run_ts run_ps] in *.
+  (* no hash-map failure *)
+  destruct X3 as (NR3 & PK3 & PV3). destruct X2 as (NR2 & PK2 & PV2). destruct X1 as (NR1 & PK1 & PV1).
+  assert (Hnf : nm_fail ts || nm_fail (ps_names st3) = false).
+  { destruct HT2 as (F1 & _). destruct NR3 as (F2 & _). rewrite F1, F2. reflexivity. }
+  rewrite Hnf in *.
+  set (r_ts := numbered_name_records OasisRecord_TEXTSTRING (nm_items ts)) in *.
+  set (r_pn := numbered_name_records OasisRecord_PROPNAME (nm_items (ps_names st3))) in *.
+  set (r_ps := propstring_records (ps_vals st3)) in *.
+  set (VF := ps_vals st3) in *.
+  (* sizes *)
+  assert (Hfile : N.of_nat (length start) + reclen r_lp + reclen r_c + reclen r_cn + reclen r_ts + reclen r_pn + reclen r_ps < two64).
+  { rewrite !app_length in Hsize. rewrite !concat_app, !app_length in Hsize. unfold reclen. lia. }
+  destruct (names_records_bounds OasisRecord_TEXTSTRING (nm_items ts)) as [Bts1 Bts2]. fold r_ts in Bts1, Bts2.
+  destruct (names_records_bounds OasisRecord_PROPNAME (nm_items (ps_names st3))) as [Bpn1 Bpn2]. fold r_pn in Bpn1, Bpn2.
+  destruct (propstring_records_bounds VF) as [Bps1 Bps2]. fold r_ps in Bps1, Bps2.
+  assert (LK : len_ok K3) by (unfold len_ok; rewrite <- (NR_items_len _ _ NR3); lia).
+  assert (LT : len_ok T2) by (unfold len_ok; rewrite <- (NR_items_len _ _ HT2); lia).
+  assert (LV : len_ok VF) by (unfold len_ok; lia).
+  assert (LC : len_ok names) by (unfold len_ok, names; rewrite map_length; lia).
+  (* what is written is well formed *)
+  assert (PK13 : prefix K1 K3) by (eapply prefix_trans; eassumption).
+  assert (PV13 : prefix (ps_vals st1) VF) by (eapply prefix_trans; eassumption).
+  pose proof (props_res_wf K3 VF d_lp (li_props l) (R1 K3 VF PK13 PV13) Hlp LK LV) as Wlp.
+  pose proof (cells_res_wf K3 VF T2 names d_c (li_cells l) (R2 K3 VF T2 PK3 PV3 (prefix_refl _)) Hcells LK LV LT LC) as Wc.
+  pose proof (cn_res_wf cfg names offs K3 VF (pos1 + reclen r_c) d_cn (li_cells l) (R3 K3 VF (prefix_refl _) (prefix_refl _))
+                Hcells Hoffs ltac:(unfold pos1; lia) LK LV) as Wcn.
+  (* the record loop *)
+  set (u := real_of_bits (li_unit l)).
+  destruct (csteps_props_lib false d_lp modal0 (k_init u) Wlp eq_refl eq_refl) as (m1 & SA & A1).
+  set (kA := k_set_lprops (k_init u) (rev d_lp ++ k_lprops (k_init u))) in *.
+  assert (Hoks : Forall wcell_oks (li_cells l)).
+  { rewrite Forall_forall in *. intros c Hc. apply wcell_oks_intro; [apply Hcells|apply Hsmall]; exact Hc. }
+  destruct (csteps_cells false names (li_cells l) pos1 names0 st1 r_c d_c offs ts st2 E2 Hoks Wc
+              (cells_res_nodup _ _ _ _ _ _ (R2 K3 VF T2 PK3 PV3 (prefix_refl _)) Hnd) m1 kA A1
+              (fun gc _ i _ => eq_refl)) as (m2 & tg2 & SB & A2).
+  set (kB := k_set_cells kA (rev (map rcell_g d_c) ++ k_cells kA) tg2) in *.
+  destruct (csteps_cellnames false cfg names offs (li_cells l) st2 r_cn d_cn st3 E3
+              (Forall_impl _ (fun c (H : wcell_okp c) => proj1 H) Hcells) Wcn m2 kB 0%nat A2
+              (or_introl eq_refl) eq_refl (fun j _ => eq_refl)) as (m3 & SC & A3).
+  fold names in SC. set (kC := k_after_cellnames kB 0 names d_cn) in *.
+  destruct (k_after_cellnames_fields kB 0 names d_cn) as (FC1 & FC2 & FC3 & FC4 & FC5 & FC6 & FC7 & FC8 & FC9 & FC10 & FC11 & FC12).
+  fold kC in FC1, FC2, FC3, FC4, FC5, FC6, FC7, FC8, FC9, FC10, FC11, FC12.
+  (* TEXTSTRING *)
+  destruct (NR_items ts T2 HT2) as (NDts & INts & PMts).
+  assert (SD : csteps false m3 kC r_ts m3 (k_after_ts kC (nm_items ts))).
+  { apply csteps_textstrings; [left; rewrite FC10; reflexivity|apply (items_values_nodup _ _ PMts)|].
+    intros kv Hin. split; [|split].
+    - unfold wf_str. specialize (Bts2 kv Hin). lia.
+    - destruct kv as [s v]. apply INts in Hin. cbn [snd].
+      assert (N.to_nat v < length T2)%nat by (apply nth_error_Some; congruence).
+      destruct Hcnt as [Hc1 _]. unfold nm_count in Hc1. rewrite (NR_count _ _ HT2) in Hc1. lia.
+    - rewrite FC6. reflexivity. }
+  set (kD := k_after_ts kC (nm_items ts)) in *.
+  destruct (k_after_ts_fields kC (nm_items ts)) as (FD1 & FD2 & FD3 & FD4 & FD5 & FD6 & FD7 & FD8 & FD9 & FD10 & FD11).
+  fold kD in FD1, FD2, FD3, FD4, FD5, FD6, FD7, FD8, FD9, FD10, FD11.
+  (* PROPNAME *)
+  destruct (NR_items (ps_names st3) K3 NR3) as (NDpn & INpn & PMpn).
+  assert (SE : csteps false m3 kD r_pn m3 (k_after_pn kD (nm_items (ps_names st3)))).
+  { apply csteps_propnames; [left; rewrite FD10, FC11; reflexivity|apply (items_values_nodup _ _ PMpn)|].
+    intros kv Hin. split; [|split].
+    - unfold wf_str. specialize (Bpn2 kv Hin). lia.
+    - destruct kv as [s v]. apply INpn in Hin. cbn [snd].
+      assert (N.to_nat v < length K3)%nat by (apply nth_error_Some; congruence).
+      destruct Hcnt as [_ Hc2]. unfold nm_count in Hc2. rewrite (NR_count _ _ NR3) in Hc2. lia.
+    - rewrite FD7, FC7. reflexivity. }
+  set (kE := k_after_pn kD (nm_items (ps_names st3))) in *.
+  destruct (k_after_pn_fields kD (nm_items (ps_names st3))) as (FE1 & FE2 & FE3 & FE4 & FE5 & FE6 & FE7 & FE8 & FE9 & FE10).
+  fold kE in FE1, FE2, FE3, FE4, FE5, FE6, FE7, FE8, FE9, FE10.
+  (* PROPSTRING *)
+  assert (SF : csteps false m3 kE r_ps m3 (k_after_ps kE 0 VF)).
+  { apply csteps_propstrings; [left; rewrite FE10, FD11, FC12; reflexivity|rewrite FE9, FD9, FC9; reflexivity| |].
+    - apply Forall_forall. intros s Hin. unfold wf_str. specialize (Bps2 s Hin). lia.
+    - intros j _. rewrite FE8, FD8, FC8. reflexivity. }
+  set (kF := k_after_ps kE 0 VF) in *.
+  destruct (k_after_ps_fields kE 0 VF) as (FF1 & FF2 & FF3 & FF4 & FF5 & FF6 & FF7 & FF8).
+  fold kF in FF1, FF2, FF3, FF4, FF5, FF6, FF7, FF8.
+  assert (Sall : csteps false modal0 (k_init u) (r_lp ++ r_c ++ r_cn ++ r_ts ++ r_pn ++ r_ps) m3 kF).
+  { rewrite Enc1. eapply csteps_app; [exact SA|]. eapply csteps_app; [exact SB|]. eapply csteps_app; [exact SC|].
+    eapply csteps_app; [exact SD|]. eapply csteps_app; [exact SE|exact SF]. }
+  set (R := r_lp ++ r_c ++ r_cn ++ r_ts ++ r_pn ++ r_ps) in *.
+  (* END *)
+  pose proof (end_record_ok
+                (match li_cells l with [] => 0 | _ :: _ => pos1 + reclen r_c end)
+                (if 0 <? nm_count ts then pos1 + reclen r_c + reclen r_cn else 0)
+                (if 0 <? nm_count (ps_names st3) then pos1 + reclen r_c + reclen r_cn + reclen r_ts else 0)
+                (match VF with [] => 0 | _ :: _ => pos1 + reclen r_c + reclen r_cn + reclen r_ts + reclen r_pn end)) as Hend.
+  match type of Hend with ?A -> ?B -> ?C -> ?D -> _ =>
+    assert (W1 : A) by (unfold wf_u, pos1; destruct (li_cells l); lia);
+    assert (W2 : B) by (unfold wf_u, pos1; destruct (0 <? nm_count ts); lia);
+    assert (W3 : C) by (unfold wf_u, pos1; destruct (0 <? nm_count (ps_names st3)); lia);
+    assert (W4 : D) by (unfold wf_u, pos1; destruct VF; lia)
+  end.
+  specialize (Hend W1 W2 W3 W4).
+  destruct (end_record_w _ _ _ _) as [|code tail]; [contradiction|]. destruct Hend as [-> Hend].
+  (* the tables at END *)
+  assert (Epn : k_pn kF = rev (map swap_kv (nm_items (ps_names st3))) ++ []) by (rewrite FF7, FE7, FD7, FC7; reflexivity).
+  assert (Eps : k_ps kF = rev (map swap_kv (enum_from 0 VF)) ++ []) by (rewrite FF8, FE8, FD8, FC8; reflexivity).
+  assert (Ets : k_ts kF = rev (map swap_kv (nm_items ts)) ++ []) by (rewrite FF6, FE6, FD6, FC6; reflexivity).
+  assert (Ecn : k_cn kF = rev (map swap_kv (enum_from 0 names)) ++ []) by (rewrite FF4, FE4, FD4, FC4; reflexivity).
+  assert (Ecnp : k_cnp kF = rev (cnp_list 0 d_cn) ++ []) by (rewrite FF5, FE5, FD5, FC5; reflexivity).
+  assert (Elp : k_lprops kF = rev d_lp ++ []) by (rewrite FF2, FE2, FD2, FC2; reflexivity).
+  assert (Ecs : k_cells kF = rev (map rcell_g d_c) ++ []) by (rewrite FF3, FE3, FD3, FC3; reflexivity).
+  assert (Eu : k_unit kF = u) by (rewrite FF1, FE1, FD1, FC1; reflexivity).
+  assert (AgK : agrees (k_pn kF) K3) by (rewrite Epn; apply agrees_items; exact PMpn).
+  assert (AgV : agrees (k_ps kF) VF) by (rewrite Eps; apply agrees_enum).
+  assert (AgT : agrees (k_ts kF) T2) by (rewrite Ets; apply agrees_items; exact PMts).
+  assert (AgC : agrees (k_cn kF) names) by (rewrite Ecn; apply agrees_enum).
+  assert (Hfin : finalize (DS m3 kF) =
+                 Some (mkLayout u (view_props (li_props l)) (map (view_cell cfg names offs) (li_cells l)))).
+  { rewrite finalize_DS. rewrite Elp, app_nil_r, rev_involutive.
+    rewrite (props_res_resolve (k_pn kF) (k_ps kF) K3 VF d_lp (li_props l) AgK AgV (R1 K3 VF PK13 PV13)). cbn [obnd].
+    rewrite Ecs, app_nil_r, rev_involutive.
+    pose proof (R2 K3 VF T2 PK3 PV3 (prefix_refl _)) as RC. pose proof (R3 K3 VF (prefix_refl _) (prefix_refl _)) as RN.
+    rewrite (omap_nth (resolve_cell (DS m3 kF)) (map rcell_g d_c) (map (view_cell cfg names offs) (li_cells l))).
+    - cbn [obnd]. rewrite Eu. reflexivity.
+    - rewrite !map_length. apply (Forall2_length_eq _ _ _ RC).
+    - intros j a b Ha Hb. rewrite nth_error_map in Ha, Hb.
+      destruct (nth_error d_c j) as [gc|] eqn:Egc; [|discriminate]. destruct (nth_error (li_cells l) j) as [c|] eqn:Ec; [|discriminate].
+      cbn [option_map] in Ha, Hb. injection Ha as <-. injection Hb as <-.
+      destruct (Forall2_nth _ _ _ j gc c RC Egc Ec) as (i & Hi & Hres).
+      assert (Hij : i = N.of_nat j).
+      { pose proof (cell_index_some names (cl_name c) i Hi) as H1.
+        assert (H2 : nth_error names j = Some (cl_name c)) by (unfold names; rewrite nth_error_map, Ec; reflexivity).
+        assert (N.to_nat i = j); [|lia].
+        apply (proj1 (NoDup_nth_error names) Hnd); [apply nth_error_Some; congruence|congruence]. }
+      destruct (nth_error d_cn j) as [pd|] eqn:Epd.
+      + apply (resolve_rcell_g m3 kF cfg names offs K3 VF T2 i gc c AgC AgT AgK AgV Hi Hres).
+        rewrite Ecnp, app_nil_r, cnprops_rev, rev_involutive. rewrite Hij.
+        change (N.of_nat j) with (N.of_nat (0 + j)). rewrite cnp_filter, Epd.
+        apply (props_res_resolve (k_pn kF) (k_ps kF) K3 VF _ _ AgK AgV). apply (Forall2_nth _ _ _ j pd c RN Epd Ec).
+      + exfalso. apply nth_error_None in Epd. rewrite (Forall2_length_eq _ _ _ RN) in Epd.
+        assert (j < length (li_cells l))%nat by (apply nth_error_Some; congruence). lia. }
+  (* (c8): every property given with a CELLNAME record resolves *)
+  assert (Hc8 : exists x, omap (resolve_prop (k_pn kF) (k_ps kF)) (map snd (k_cnp kF)) = Some x).
+  { apply omap_total. intros p Hin. apply in_map_iff in Hin. destruct Hin as (kp & <- & Hin).
+    rewrite Ecnp, app_nil_r in Hin. apply in_rev in Hin. destruct (cnp_list_in _ _ _ Hin) as (pd & Hpd & Hp).
+    pose proof (R3 K3 VF (prefix_refl _) (prefix_refl _)) as RN.
+    destruct (Forall2_in_l _ _ _ pd RN Hpd) as (c & _ & Hres).
+    destruct (Forall2_in_l _ _ _ (snd kp) Hres Hp) as (e & _ & He).
+    exists (view_prop e). apply (prop_res_resolve (k_pn kF) (k_ps kF) K3 VF _ _ AgK AgV He). }
+  destruct Hc8 as (x8 & Hc8).
+  (* the header *)
+  unfold cov_oas_decode. unfold start, start_header. rewrite <- !app_assoc. rewrite strip_prefix_app. cbn [obnd].
+  change OasisRecord_START with 1. cbn [app rd_byte obnd N.eqb Pos.eqb negb].
+  match goal with |- context [rd_string (3 :: 49 :: 46 :: 48 :: ?X)] =>
+    change (3 :: 49 :: 46 :: 48 :: X) with (wr_string version_1_0 ++ X) end.
+  rewrite rd_string_enc by (unfold wf_str, two64; cbn; lia). cbn [obnd].
+  change (strip_prefix version_1_0 version_1_0) with (Some (@nil N)). cbn [obnd].
+  change (length version_1_0 =? 3)%nat with true. cbn [negb].
+  rewrite cov_real_enc_real. cbn [obnd app].
+  rewrite rd_uint_small by lia. cbn [obnd N.ltb N.compare Pos.compare Pos.compare_cont N.eqb].
+  change (d_init (real_of_bits (li_unit l))) with (DS modal0 (k_init u)).
+  apply (cov_loop_mono (length R + 1)).
+  - rewrite (csteps_loop false _ _ _ _ _ Sall 1%nat (2 :: tail)). cbn [cov_loop].
+    unfold cov_record. cbn [rd_byte obnd]. rewrite Hend. unfold cov_finalize. cbn [DS d_propnames d_propstrings d_cn_props].
+    rewrite Hc8. cbn [obnd]. rewrite Hfin. reflexivity.
+  - rewrite app_length. pose proof (concat_length_ge R (csteps_nonempty _ _ _ _ _ _ Sall)). cbn [length]. lia.
+Qed.
+
+Theorem writer_output_covered_lemma : forall cfg l, wlib_ok l -> wlib_small l -> covered (write_oas_model cfg l).
+Proof. intros cfg l H1 H2. unfold covered. rewrite (writer_output_cov_decode_lemma cfg l H1 H2). discriminate. Qed.
+
+(* save then load on the two statement-level models, with no condition on the stream *)
+Theorem oas_models_roundtrip_full_lemma : forall cfg l, wlib_ok l -> wlib_small l ->
+  read_oas_model (write_oas_model cfg l) = Ok (OasisRead.view (view_w cfg l)).
+Proof.
+  intros cfg l H1 H2. apply OasisReadProofs.cov_reader_ok_lemma. apply writer_output_cov_decode_lemma; assumption.
+Qed.
+
+(* non-vacuity *)
+Example sample_wlib_small : wlib_small sample_wlib.
+Proof.
+  split.
+  - repeat (first [apply Forall_nil | apply Forall_cons | split]); unfold u32, lim31; cbn; try exact I; lia.
+  - intros [[|]]; vm_compute; split; discriminate.
+Qed.
+Example sample_wlib_roundtrip :
+  read_oas_model (write_oas_model (mkWCfg true) sample_wlib) = Ok (OasisRead.view (view_w (mkWCfg true) sample_wlib)).
+Proof. apply oas_models_roundtrip_full_lemma; [exact sample_wlib_ok|exact sample_wlib_small]. Qed.
+
+Check writer_output_covered_lemma.
+Check oas_models_roundtrip_full_lemma.
+Print Assumptions writer_output_covered_lemma.
+Print Assumptions oas_models_roundtrip_full_lemma.
